@@ -56,7 +56,7 @@ Section Inv.
     72 <= k -> cext s = Some (enc_x L E ((k - 72) / 72)) /\ pinx s = (k - 72) mod 72 + 1.
 
   Definition cur_ok (s : hstate) (L E : list Z) : Prop :=
-    (fsize s = 0 /\ cur s = 0 /\ pos s = 0 /\ ndb s = 0 /\ pind s = 0)
+    (fsize s = 0 /\ cur s = 0 /\ pos s = 0 /\ ndb s = 0 /\ pind s = 0 /\ len (d_bytes (cdata s)) = bs)
     \/ (cur s = nthZ L (ndb s - 1) /\ 1 <= ndb s <= len L /\ pos s = (ndb s - 1) * bs + pind s /\ 0 <= pind s <= bs /\ pos s <= fsize s
         /\ len (d_bytes (cdata s)) = bs
         /\ (chg s = false -> dk s (cur s) = BData (cdata s))
@@ -261,8 +261,8 @@ Section Inv.
           -- rewrite (HdkL k Hk Hb). destruct (b_ddisk _ _ _ B k Hk) as [(Hb' & _)|Hd]; [congruence|assumption].
         * discriminate.
       + unfold fsize. simpl. rewrite Ffh. exact HL.
-      + destruct C as [(Hz & Hcu & Hp & Hn & Hpi)|(Hcu & Hn & Hp & Hpi & Hps & Hlen & Hcl & Hnx & Hxc)].
-        * left. unfold fsize. simpl. rewrite Ffh, Fcur, Fpos, Fndb, Fpind. repeat split; assumption.
+      + destruct C as [(Hz & Hcu & Hp & Hn & Hpi & Hlen0)|(Hcu & Hn & Hp & Hpi & Hps & Hlen & Hcl & Hnx & Hxc)].
+        * left. unfold fsize. simpl. rewrite Ffh, Fcur, Fpos, Fndb, Fpind. destruct Hbytes as (Hb1 & _). rewrite Hb1. repeat split; assumption.
         * right. unfold fsize. simpl. rewrite Ffh, Fcur, Fpos, Fndb, Fpind. destruct Hbytes as (Hb1 & Hb2). rewrite Hb1, Hb2.
           repeat match goal with |- _ /\ _ => split end; try assumption; try lia.
           -- intros _. assert (Hf : flushes_data s = true).
@@ -648,7 +648,8 @@ Section Inv.
     assert (Hf0 : fsize s0 = fsize s) by reflexivity. rewrite Hf0.
     destruct (Z.eqb_spec (fsize s) 0) as [Hz|Hz].
     - assert (I0 : Inv s0 L E).
-      { split; [apply (cb_frame s); try reflexivity; try assumption; apply (b_cext _ _ _ B)|]. split; [exact HL|]. left. splits; try reflexivity. exact Hz. }
+      { split; [apply (cb_frame s); try reflexivity; try assumption; apply (b_cext _ _ _ B)|]. split; [exact HL|]. left. splits; try reflexivity; [exact Hz|].
+        destruct I as (_ & _ & [(_ & _ & _ & _ & _ & Hl0)|(_ & _ & _ & _ & _ & Hl0 & _)]); exact Hl0. }
       exists s0. splits; try reflexivity; try assumption; try contradiction.
       split; [destruct R as (Hl & _); exact Hl|]. intros i Hi. rewrite Hf0 in Hi. lia.
     - destruct (len_pos_of_size s L E C Hz) as (HlL & Hsz).
@@ -896,7 +897,7 @@ Section Inv.
           pose proof I1 as (B1 & HL1 & C1).
           assert (I2 : Inv (set_pos s1 (fsize s)) L E).
           { split; [apply (base_frame s1); try reflexivity; assumption|]. split; [exact HL1|].
-            destruct C1 as [(Hz1 & Hcu & Hp1 & Hn1 & Hpi1)|(_ & Hn1 & _)].
+            destruct C1 as [(Hz1 & Hcu & Hp1 & Hn1 & Hpi1 & Hl1)|(_ & Hn1 & _)].
             - left. cbn. splits; try assumption.
             - exfalso. destruct (empty_L s1 L E I1 ltac:(lia)) as (-> & _). unfold len in Hn1. simpl in Hn1. lia. }
           destruct (seek_start_ok (set_pos s1 (fsize s)) L E ct I2 Hcl) as (s' & Hss & I' & R' & P' & C' & D' & F' & W' & M' & _).
@@ -904,5 +905,417 @@ Section Inv.
           exists s'. split; [exact Hss|]. unfold seek_post. cbn in *. splits; try assumption; try congruence.
         * rewrite <- Hf1. destruct (seek_eof_ok s1 L E ct I1 Hcl R1 ltac:(lia)) as (s' & Hse & (I' & R' & P' & F' & W' & M')).
           exists s'. split; [exact Hse|]. unfold seek_post. splits; try assumption; try congruence.
+  Qed.
+
+  (* ---- adfFileWrite: the copy into the buffered block ---- *)
+  Lemma base_dirty s L E : Base s L E -> mw s = true -> Base (set_chg s true) L E.
+  Proof.
+    intros B Hw. constructor; simpl; try (apply B).
+    - intros j Hj. destruct (b_xdisk _ _ _ B j Hj) as [H|(_ & H)]; [left; exact H|right; split; [reflexivity|exact H]].
+    - intros k Hk. destruct (b_ddisk _ _ _ B k Hk) as [(H & _)|H]; [left; split; [exact H|reflexivity]|right; exact H].
+    - intros _. exact Hw.
+  Qed.
+
+  (* Base does not read pos, pinx, pind, the buffered data block, mr or the size field of the header *)
+  Lemma base_frame2 s s' L E : dk s' = dk s -> cur s' = cur s -> ndb s' = ndb s -> chg s' = chg s -> cext s' = cext s -> mw s' = mw s ->
+    hdr_ok (fh s') L E -> 0 <= fsize s' -> Base s L E -> Base s' L E.
+  Proof.
+    intros Hdk Hcur Hndb Hchg Hcext Hmw Hh Hsz B.
+    assert (Hbuf : forall k, buffered s' k = buffered s k) by (intros k; unfold buffered; rewrite Hcur, Hndb; reflexivity).
+    constructor; rewrite ?Hdk, ?Hchg, ?Hcext, ?Hmw.
+    - exact Hh.
+    - exact Hsz.
+    - apply (b_nE _ _ _ B).
+    - apply (b_nodup _ _ _ B).
+    - apply (b_ge2 _ _ _ B).
+    - apply (b_cext _ _ _ B).
+    - apply (b_xdisk _ _ _ B).
+    - intros k Hk. rewrite Hbuf. apply (b_ddisk _ _ _ B k Hk).
+    - apply (b_chg _ _ _ B).
+  Qed.
+
+  Definition copy_step (s1 : hstate) (chunk : list Z) : hstate :=
+    let d := set_d_bytes (cdata s1) (ovw (d_bytes (cdata s1)) (pind s1) chunk) in
+    let p' := pos s1 + len chunk in
+    set_fh (set_chg (set_pind (set_pos (set_cdata s1 d) p') (pind s1 + len chunk)) true) (set_h_size (fh s1) (Z.max (fsize s1) p')).
+
+  Lemma copy_ok s1 L E ct chunk :
+    Base (set_chg s1 true) L E -> mw s1 = true ->
+    cur s1 = nthZ L (ndb s1 - 1) -> 1 <= ndb s1 <= len L -> pos s1 = (ndb s1 - 1) * bs + pind s1 -> 0 <= pind s1 -> pind s1 + len chunk <= bs -> 0 < len chunk ->
+    pos s1 <= fsize s1 -> len (d_bytes (cdata s1)) = bs -> ext_cursor s1 L E (ndb s1 - 1) ->
+    (ofs = true -> ndb s1 < len L -> d_next (cdata s1) = nthZ L (ndb s1)) ->
+    len L = size2db (Z.max (fsize s1) (pos s1 + len chunk)) bs ->
+    len ct = fsize s1 -> (forall i, 0 <= i < fsize s1 -> nthZ ct i = byte_at s1 L i) ->
+    let s2 := copy_step s1 chunk in
+    Inv s2 L E /\ Repr s2 L (ovw ct (pos s1) chunk) /\ pos s2 = pos s1 + len chunk /\ fsize s2 = Z.max (fsize s1) (pos s1 + len chunk)
+    /\ mw s2 = mw s1 /\ mr s2 = mr s1 /\ chg s2 = true /\ cur s2 <> 0 /\ pind s2 = pind s1 + len chunk.
+  Proof.
+    intros B1 Hw Hcu Hn Hp Hpi Hfit Hc Hps Hlen Hxc Hnx HL Hlct Hr. cbv zeta.
+    set (c := len chunk) in *. set (k0 := ndb s1 - 1) in *.
+    assert (Hcur2 : 2 <= cur s1) by (rewrite Hcu; apply (b_ge2 _ _ _ B1); apply in_or_app; left; apply in_L_nth; lia).
+    assert (Hpos0 : 0 <= pos s1) by nia.
+    assert (B2 : Base (copy_step s1 chunk) L E).
+    { apply (base_frame2 (set_chg s1 true)); try reflexivity; try assumption.
+      - pose proof (b_hdr _ _ _ B1) as Hh. exact Hh.
+      - unfold copy_step, fsize. cbn. pose proof (b_size _ _ _ B1) as Hz. unfold fsize in Hz. cbn in Hz. lia. }
+    assert (Hsz2 : fsize (copy_step s1 chunk) = Z.max (fsize s1) (pos s1 + c)) by reflexivity.
+    splits; try reflexivity.
+    - split; [exact B2|]. split; [rewrite Hsz2; exact HL|].
+      right. unfold copy_step. cbn -[Z.max]. fold c. fold k0.
+      splits; try assumption; try lia.
+      rewrite len_ovw_gen by lia. fold c. lia.
+    - split.
+      + rewrite len_ovw_gen by lia. fold c. rewrite Hsz2. lia.
+      + intros i Hi. rewrite Hsz2 in Hi. rewrite nthZ_ovw_gen by lia. fold c.
+        assert (Hbuf2 : forall k, buffered (copy_step s1 chunk) k = buffered s1 k) by (intros k; reflexivity).
+        assert (Hbk0 : buffered s1 k0 = true) by (unfold buffered; subst k0; rewrite Z.eqb_refl, andb_true_r; destruct (Z.eqb_spec (cur s1) 0); [lia|reflexivity]).
+        unfold byte_at.
+        destruct (Z.leb_spec (pos s1) i) as [H1|H1]; destruct (Z.ltb_spec i (pos s1 + c)) as [H2|H2]; cbn [andb].
+        * (* inside the chunk *)
+          assert (Hd : i / bs = k0) by (replace i with (k0 * bs + (pind s1 + (i - pos s1))) by lia; apply div_block; lia).
+          assert (Hm : i mod bs = pind s1 + (i - pos s1)) by (replace i with (k0 * bs + (pind s1 + (i - pos s1))) at 1 by lia; apply mod_block; lia).
+          rewrite Hd, Hm. unfold truth_d. rewrite Hbuf2, Hbk0. unfold copy_step. cbn. rewrite nthZ_ovw_gen by lia. fold c.
+          destruct (Z.leb_spec (pind s1) (pind s1 + (i - pos s1))); [|lia]. destruct (Z.ltb_spec (pind s1 + (i - pos s1)) (pind s1 + c)); [|lia].
+          cbn [andb]. f_equal. lia.
+        * (* behind the chunk: old bytes *)
+          assert (Hi1 : i < fsize s1) by lia. rewrite (Hr i ltac:(lia)). unfold byte_at.
+          unfold truth_d. rewrite Hbuf2. destruct (buffered s1 (i / bs)) eqn:Hb; [|reflexivity].
+          unfold copy_step. cbn. rewrite nthZ_ovw_gen by lia. fold c.
+          assert (Hd : i / bs = k0) by (unfold buffered in Hb; apply andb_prop in Hb; destruct Hb as (_ & Hb); apply Z.eqb_eq in Hb; exact Hb).
+          assert (Hm : k0 * bs + i mod bs = i) by (pose proof (Z.div_mod i bs ltac:(lia)); rewrite Hd in *; lia).
+          destruct (Z.leb_spec (pind s1) (i mod bs)); destruct (Z.ltb_spec (i mod bs) (pind s1 + c)); cbn [andb]; try reflexivity. lia.
+        * (* before the chunk *)
+          assert (Hi1 : i < fsize s1) by lia. rewrite (Hr i ltac:(lia)). unfold byte_at.
+          unfold truth_d. rewrite Hbuf2. destruct (buffered s1 (i / bs)) eqn:Hb; [|reflexivity].
+          unfold copy_step. cbn. rewrite nthZ_ovw_gen by lia. fold c.
+          assert (Hd : i / bs = k0) by (unfold buffered in Hb; apply andb_prop in Hb; destruct Hb as (_ & Hb); apply Z.eqb_eq in Hb; exact Hb).
+          assert (Hm : k0 * bs + i mod bs = i) by (pose proof (Z.div_mod i bs ltac:(lia)); rewrite Hd in *; lia).
+          destruct (Z.leb_spec (pind s1) (i mod bs)); destruct (Z.ltb_spec (i mod bs) (pind s1 + c)); cbn [andb]; try reflexivity. lia.
+        * lia.
+    - unfold copy_step. cbn. lia.
+  Qed.
+
+  (* ---- adfFileCreateNextBlock ---- *)
+  Definition fresh (L E : list Z) (b : Z) : Prop := 2 <= b /\ b <> key /\ ~ In b (L ++ E).
+
+  Lemma at_eof_boundary s L E : Inv s L E -> pos s = fsize s -> pos s mod bs = 0 ->
+    ndb s = len L /\ fsize s = len L * bs /\ (len L = 0 \/ (1 <= len L /\ pind s = bs /\ cur s = nthZ L (len L - 1) /\ cur s <> 0 /\ len (d_bytes (cdata s)) = bs)).
+  Proof.
+    intros I Hp Hm. pose proof I as (B & HL & [(Hz & Hc & Hp0 & Hn & Hpi & _)|(Hcu & Hn & Hpp & Hpi & Hle & Hlen & _)]).
+    - rewrite Hz, size2db_0 in HL. splits; try lia.
+    - assert (Hcz : 2 <= cur s) by (apply (cur_nonzero s L E I); lia).
+      assert (Hpm : pind s = 0 \/ pind s = bs).
+      { rewrite Hpp in Hm. destruct (Z.eq_dec (pind s) bs) as [|Hne]; [right; assumption|left]. assert (Hr0 : 0 <= pind s < bs) by (clear - Hpi Hne; lia). rewrite (mod_block _ _ Hr0) in Hm. exact Hm. }
+      destruct (size2db_spec (fsize s) (b_size _ _ _ B)) as [Hs|[Hs Hs2]]; [|lia]. rewrite <- HL in Hs.
+      destruct Hpm as [H0|Hb].
+      + exfalso. nia.
+      + assert (ndb s = len L) by nia. splits; try lia. right. splits; try assumption; try lia. congruence.
+  Qed.
+
+  Lemma finish_shape t n : 0 <= bs -> let t' := finish_create bs ofs t n in
+    cur t' = n /\ ndb t' = ndb t + 1 /\ pos t' = pos t /\ pinx t' = pinx t /\ pind t' = pind t /\ chg t' = chg t /\ cext t' = cext t /\ fh t' = fh t
+    /\ mw t' = mw t /\ mr t' = mr t
+    /\ (forall k, dk t' k = if (bs <=? pos t) && (k =? cur t) then BData (if ofs then set_d_size (set_d_next (cdata t) n) bs else cdata t) else dk t k)
+    /\ len (d_bytes (cdata t')) = (if ofs then bs else if bs <=? pos t then bs else len (d_bytes (cdata t)))
+    /\ (ofs = true -> d_next (cdata t') = 0).
+  Proof.
+    intros H0. unfold finish_create. destruct ofs; destruct (bs <=? pos t); cbn -[Z.eqb]; splits; try reflexivity;
+      try (intros k; destruct (k =? cur t); reflexivity); try (unfold len; rewrite zerosZ_length; lia); try discriminate.
+  Qed.
+
+  (* what appending block n (and extension block e when one is due) makes of the ghost lists *)
+  Definition needs_x (n0 : Z) : bool := (72 <=? n0) && (n0 mod 72 =? 0).
+
+  Lemma db2ext_snoc n0 : 0 <= n0 -> db2ext (n0 + 1) = db2ext n0 + (if needs_x n0 then 1 else 0).
+  Proof.
+    intros H. unfold db2ext, needs_x, MAXDB. destruct (Z.ltb_spec (n0 + 1) 1); [lia|]. replace (n0 + 1 - 1) with n0 by lia.
+    destruct (Z.ltb_spec n0 1).
+    - assert (n0 = 0) by lia. subst. reflexivity.
+    - destruct (Z.leb_spec 72 n0); destruct (Z.eqb_spec (n0 mod 72) 0); cbn [andb]; lia.
+  Qed.
+
+  (* the data side of an append, whatever was done to the tables before: t is the state handed to finish_create *)
+  Lemma append_data s t L E E' n ct :
+    Inv s L E -> Repr s L ct -> mw s = true -> pos s = fsize s -> pos s mod bs = 0 ->
+    fresh L E n -> len E' = db2ext (len L + 1) -> NoDup (key :: (L ++ [n]) ++ E') -> (forall b, In b ((L ++ [n]) ++ E') -> 2 <= b) ->
+    hdr_ok (fh t) (L ++ [n]) E' -> h_size (fh t) = h_size (fh s) -> cext_ok t (L ++ [n]) E' ->
+    (forall j, 0 <= j < len E' -> dk t (nthZ E' j) = BExt (enc_x (L ++ [n]) E' j) \/ cext t = Some (enc_x (L ++ [n]) E' j)) ->
+    (forall k, 0 <= k < len L -> dk t (nthZ L k) = dk s (nthZ L k)) ->
+    (forall j, 0 <= j < len E' -> nthZ E' j <> cur s) ->
+    cur t = cur s -> ndb t = ndb s -> cdata t = cdata s -> pos t = pos s -> mw t = mw s ->
+    let sc := finish_create bs ofs t n in
+    Base (set_chg sc true) (L ++ [n]) E' /\ (forall i, 0 <= i < fsize s -> nthZ ct i = byte_at sc (L ++ [n]) i) /\ len (d_bytes (cdata sc)) = bs.
+  Proof.
+    intros I R Hw Hp Hm (Hn2 & Hnk & Hnin) HlE Hnd Hge Hh Hhs Hcx Hxd Hdl Hxc Hcur Hndb Hcd Hpos Hmw. cbv zeta.
+    destruct (at_eof_boundary s L E I Hp Hm) as (Hn0 & Hsz & Hshape). pose proof I as (B & HL & C).
+    destruct (finish_shape t n ltac:(lia)) as (Fcur & Fndb & Fpos & Fpinx & Fpind & Fchg & Fcext & Ffh & Fmw & Fmr & Fdk & Flen & Fnx).
+    remember (finish_create bs ofs t n) as sc eqn:Hsc. clear Hsc. set (L' := L ++ [n]) in *.
+    assert (HlL' : len L' = len L + 1) by (subst L'; rewrite len_app; unfold len at 2; simpl; lia).
+    assert (HnL : forall k, 0 <= k < len L -> nthZ L' k = nthZ L k) by (intros k Hk; subst L'; apply nthZ_app_l; lia).
+    assert (HnN : nthZ L' (len L) = n) by (subst L'; rewrite nthZ_snoc, Z.eqb_refl; reflexivity).
+    assert (Hwr : (bs <=? pos t) = negb (len L =? 0)).
+    { rewrite Hpos, Hp, Hsz. destruct (Z.eqb_spec (len L) 0) as [->|Hne]; cbn [negb]; [destruct (Z.leb_spec bs (0 * bs)); [lia|reflexivity]|].
+      pose proof (len_nonneg L). destruct (Z.leb_spec bs (len L * bs)); [reflexivity|nia]. }
+    (* the disk after the call, at the old data blocks *)
+    assert (HdkOld : forall k, 0 <= k < len L - 1 -> dk sc (nthZ L k) = dk s (nthZ L k)).
+    { intros k Hk. rewrite Fdk. destruct ((bs <=? pos t) && (nthZ L k =? cur t)) eqn:Hx; [|apply Hdl; lia].
+      exfalso. apply andb_prop in Hx. destruct Hx as (_ & Hx). apply Z.eqb_eq in Hx. rewrite Hcur in Hx.
+      destruct Hshape as [Hz|(_ & _ & Hcu & _)]; [lia|]. rewrite Hcu in Hx. apply (inj_L s L E k (len L - 1) B) in Hx; lia. }
+    assert (HdkLast : 1 <= len L -> dk sc (nthZ L (len L - 1)) = BData (if ofs then set_d_size (set_d_next (cdata s) n) bs else cdata s)).
+    { intros H1. rewrite Fdk, Hwr, Hcur, Hcd. destruct Hshape as [Hz|(_ & _ & Hcu & _)]; [lia|]. rewrite <- Hcu, Z.eqb_refl.
+      destruct (Z.eqb_spec (len L) 0); [lia|]. reflexivity. }
+    splits.
+    - constructor; cbn -[enc_x]; rewrite ?Ffh, ?Fcext, ?Fmw.
+      + exact Hh.
+      + unfold fsize. cbn. rewrite Ffh, Hhs. apply (b_size _ _ _ B).
+      + rewrite HlL'. exact HlE.
+      + exact Hnd.
+      + exact Hge.
+      + exact Hcx.
+      + intros j Hj. destruct (Hxd j Hj) as [Hd|Hd]; [left|right; split; [reflexivity|exact Hd]].
+        rewrite Fdk. destruct ((bs <=? pos t) && (nthZ E' j =? cur t)) eqn:Hx; [|exact Hd].
+        exfalso. apply andb_prop in Hx. destruct Hx as (_ & Hx). apply Z.eqb_eq in Hx. rewrite Hcur in Hx. exact (Hxc j Hj Hx).
+      + intros k Hk. rewrite HlL' in Hk. destruct (Z.eq_dec k (len L)) as [->|Hne].
+        * left. split; [|reflexivity]. unfold buffered. cbn. rewrite Fcur, Fndb, Hndb, Hn0. replace (len L + 1 - 1) with (len L) by lia. rewrite Z.eqb_refl, andb_true_r.
+          destruct (Z.eqb_spec n 0); [lia|reflexivity].
+        * right. rewrite (HnL k ltac:(lia)). destruct (Z.eq_dec k (len L - 1)) as [->|Hne2].
+          -- rewrite (HdkLast ltac:(lia)). destruct Hshape as [Hz|(_ & _ & _ & _ & Hlen)]; [lia|].
+             eexists. split; [reflexivity|]. replace (len L - 1 + 1) with (len L) by lia. rewrite HnN.
+             destruct ofs; cbn; (split; [exact Hlen|]); intros; try discriminate; reflexivity.
+          -- rewrite (HdkOld k ltac:(lia)). destruct (b_ddisk _ _ _ B k ltac:(lia)) as [(Hb & _)|(d & Hd & Hl & Hnx)].
+             ++ exfalso. unfold buffered in Hb. apply andb_prop in Hb. destruct Hb as (_ & Hb). apply Z.eqb_eq in Hb. lia.
+             ++ exists d. splits; try assumption. intros Ho Hk1. rewrite (HnL (k + 1) ltac:(lia)). apply Hnx; [assumption|lia].
+      + intros _. rewrite Hmw. exact Hw.
+    - intros i Hi. destruct R as (Hlct & Hr). rewrite (Hr i Hi). unfold byte_at.
+      assert (Hk : 0 <= i / bs < len L) by (rewrite HL; apply idx_in_range; lia).
+      set (k := i / bs) in *. f_equal. symmetry. unfold truth_d.
+      assert (Hbsc : buffered sc k = false).
+      { unfold buffered. rewrite Fndb, Hndb, Hn0. destruct (Z.eqb_spec k (len L + 1 - 1)); [lia|]. apply andb_false_r. }
+      rewrite Hbsc. unfold disk_d. rewrite (HnL k Hk). destruct (Z.eq_dec k (len L - 1)) as [->|Hne].
+      + rewrite (HdkLast ltac:(lia)). destruct Hshape as [Hz|(_ & _ & Hcu & Hcz & _)]; [lia|].
+        assert (Hb : buffered s (len L - 1) = true) by (unfold buffered; rewrite Hn0, Z.eqb_refl, andb_true_r; destruct (Z.eqb_spec (cur s) 0); [contradiction|reflexivity]).
+        rewrite Hb. destruct ofs; reflexivity.
+      + rewrite (HdkOld k ltac:(lia)). assert (Hb : buffered s k = false) by (unfold buffered; rewrite Hn0; destruct (Z.eqb_spec k (len L - 1)); [lia|apply andb_false_r]).
+        rewrite Hb. reflexivity.
+    - rewrite Flen. destruct ofs; [reflexivity|]. rewrite Hwr, Hcd. destruct (Z.eqb_spec (len L) 0) as [Hz|Hnz]; cbn [negb]; [|reflexivity].
+      destruct C as [(_ & _ & _ & _ & _ & Hl0)|(_ & _ & _ & _ & _ & Hl0 & _)]; exact Hl0.
+  Qed.
+
+  Lemma nodup_ins (L E : list Z) n : NoDup (key :: L ++ E) -> ~ In n (L ++ E) -> n <> key -> NoDup (key :: (L ++ [n]) ++ E).
+  Proof.
+    intros Hnd Hn Hk. inversion Hnd as [|? ? Hkin Hrest]; subst. destruct (nodup_app_inv _ _ Hrest) as (HL & HE & Hd).
+    constructor.
+    - intros Hc. apply in_app_or in Hc. destruct Hc as [Hc|Hc]; [apply in_app_or in Hc; destruct Hc as [Hc|[Hc|[]]]|].
+      + apply Hkin. apply in_or_app. left. exact Hc.
+      + congruence.
+      + apply Hkin. apply in_or_app. right. exact Hc.
+    - apply nodup_app_intro; [apply nodup_app_intro; [exact HL|constructor; [intros []|constructor]|]|exact HE|].
+      + intros a Ha [<-|[]]. apply Hn. apply in_or_app. left. exact Ha.
+      + intros a Ha Hb. apply in_app_or in Ha. destruct Ha as [Ha|[<-|[]]]; [exact (Hd a Ha Hb)|]. apply Hn. apply in_or_app. right. exact Hb.
+  Qed.
+
+  Lemma nodup_ins2 (L E : list Z) n x : NoDup (key :: L ++ E) -> ~ In n (L ++ E) -> n <> key -> ~ In x (L ++ E) -> x <> key -> x <> n ->
+    NoDup (key :: (L ++ [n]) ++ (E ++ [x])).
+  Proof.
+    intros Hnd Hn Hk Hx Hxk Hxn. pose proof (nodup_ins L E n Hnd Hn Hk) as H1. inversion H1 as [|? ? Hkin Hrest]; subst.
+    destruct (nodup_app_inv _ _ Hrest) as (HL & HE & Hd). constructor.
+    - intros Hc. apply in_app_or in Hc. destruct Hc as [Hc|Hc].
+      + apply Hkin. apply in_or_app. left. exact Hc.
+      + apply in_app_or in Hc. destruct Hc as [Hc|[Hc|[]]]; [apply Hkin; apply in_or_app; right; exact Hc|congruence].
+    - apply nodup_app_intro; [exact HL|apply nodup_app_intro; [exact HE|constructor; [intros []|constructor]|]|].
+      + intros a Ha [<-|[]]. apply Hx. apply in_or_app. right. exact Ha.
+      + intros a Ha Hb. apply in_app_or in Hb. destruct Hb as [Hb|[<-|[]]]; [exact (Hd a Ha Hb)|].
+        apply in_app_or in Ha. destruct Ha as [Ha|[Ha|[]]]; [apply Hx; apply in_or_app; left; exact Ha|congruence].
+  Qed.
+
+  Lemma ge2_ins (L E : list Z) n E' : (forall b, In b (L ++ E) -> 2 <= b) -> 2 <= n -> (forall b, In b E' -> In b E \/ 2 <= b) ->
+    forall b, In b ((L ++ [n]) ++ E') -> 2 <= b.
+  Proof.
+    intros H Hn HE b Hb. apply in_app_or in Hb. destruct Hb as [Hb|Hb].
+    - apply in_app_or in Hb. destruct Hb as [Hb|[<-|[]]]; [apply H; apply in_or_app; left; exact Hb|exact Hn].
+    - destruct (HE b Hb) as [Hb'|Hb']; [apply H; apply in_or_app; right; exact Hb'|exact Hb'].
+  Qed.
+
+  Lemma enc_snoc_other (L E E' : list Z) n j : 72 * (j + 1) + 72 <= len L -> nthZ E' j = nthZ E j -> nthZ E' (j + 1) = nthZ E (j + 1) ->
+    enc_x (L ++ [n]) E' j = enc_x L E j.
+  Proof.
+    intros Hw H1 H2. unfold enc_x. rewrite H1, H2, len_app. rewrite (window_snoc_out L (72 * (j + 1)) 72 n) by lia.
+    f_equal. unfold len at 2. cbn [length]. lia.
+  Qed.
+
+  Lemma create_next_ok s L E ct x y n L' E' :
+    Inv s L E -> Repr s L ct -> mw s = true -> pos s = fsize s -> pos s mod bs = 0 ->
+    n = (if needs_x (len L) then y else x) -> L' = L ++ [n] -> E' = (if needs_x (len L) then E ++ [x] else E) ->
+    fresh L E n -> (needs_x (len L) = true -> fresh L E x /\ x <> y) ->
+    exists sc, create_next bs ofs s (Some (x, y)) = (true, sc) /\ Base (set_chg sc true) L' E'
+      /\ (forall i, 0 <= i < fsize s -> nthZ ct i = byte_at sc L' i) /\ len (d_bytes (cdata sc)) = bs
+      /\ cur sc = n /\ ndb sc = len L + 1 /\ pos sc = pos s /\ fsize sc = fsize s /\ mw sc = mw s /\ mr sc = mr s /\ ext_cursor sc L' E' (len L).
+  Proof.
+    intros I R Hw Hp Hm Hn_eq HL'_eq HE'_eq Hfn Hfx. set (nx := needs_x (len L)) in *.
+    destruct (at_eof_boundary s L E I Hp Hm) as (Hn0 & Hsz & Hshape). pose proof I as (B & HL & C).
+    pose proof (b_hdr _ _ _ B) as (Hhk & Htab & Hhigh & Hfirst & Hext). pose proof (lenE_of s L E B) as HlE. pose proof (len_nonneg L) as HL0.
+    pose proof Hfn as (Hn2 & Hnk & Hnin).
+    assert (HlL' : len L' = len L + 1) by (subst L'; rewrite len_app; unfold len at 2; simpl; lia).
+    assert (HE'len : len E' = db2ext (len L + 1)).
+    { rewrite db2ext_snoc by lia. fold nx. rewrite <- (b_nE _ _ _ B). subst E'. destruct nx; [rewrite len_app; unfold len at 2; simpl; lia|lia]. }
+    assert (Hnd' : NoDup (key :: L' ++ E')).
+    { subst L' E'. destruct nx eqn:Hnx.
+      - destruct (Hfx eq_refl) as ((Hx2 & Hxk & Hxin) & Hxy). apply nodup_ins2; try assumption; try (apply (b_nodup _ _ _ B)). rewrite Hn_eq. exact Hxy.
+      - apply nodup_ins; try assumption. apply (b_nodup _ _ _ B). }
+    assert (Hge' : forall b, In b (L' ++ E') -> 2 <= b).
+    { subst L'. apply (ge2_ins L E n E' (b_ge2 _ _ _ B) Hn2). intros b Hb. subst E'. destruct nx eqn:Hnx; [|left; exact Hb].
+      apply in_app_or in Hb. destruct Hb as [Hb|[<-|[]]]; [left; exact Hb|right]. destruct (Hfx eq_refl) as ((Hx2 & _) & _). exact Hx2. }
+    assert (HcurE : forall j, 0 <= j < len E' -> nthZ E' j <> cur s).
+    { intros j Hj He. destruct Hshape as [Hz|(H1 & _ & Hcu & Hcz & _)].
+      - destruct C as [(_ & Hc0 & _)|(_ & Hnn & _)]; [|lia]. assert (2 <= nthZ E' j) by (apply Hge'; apply in_or_app; right; apply in_E_nth; exact Hj). lia.
+      - inversion Hnd' as [|? ? _ Hrest]; subst. destruct (nodup_app_inv _ _ Hrest) as (_ & _ & Hd). apply (Hd (cur s)).
+        + rewrite Hcu. apply in_or_app. left. apply in_L_nth. lia.
+        + rewrite <- He. apply in_E_nth. exact Hj. }
+    unfold create_next. rewrite Hn0. unfold MAXDB.
+    destruct (Z.ltb_spec (len L) 72) as [H72|H72].
+    - (* the header table *)
+      assert (Hnx : nx = false) by (subst nx; unfold needs_x; destruct (Z.leb_spec 72 (len L)); [lia|reflexivity]).
+      rewrite Hnx in *. subst n E' L'. set (L' := L ++ [x]) in *. clear Hfx.
+      assert (HE0 : len E = 0) by (rewrite HlE; destruct (Z.ltb_spec (len L) 1); lia).
+      set (h1 := if len L =? 0 then set_h_first (fh s) x else fh s).
+      set (h2 := set_h_high (set_h_tab h1 (updZ (h_tab h1) (len L) x)) (h_high h1 + 1)).
+      destruct (append_data s (set_fh s h2) L E E x ct I R Hw Hp Hm Hfn HE'len Hnd' Hge') as (Bsc & Rsc & Lsc); try reflexivity.
+      + (* header *) subst h2 h1. unfold hdr_ok. destruct (Z.eqb_spec (len L) 0) as [Hz|Hz]; cbn -[nthZ subZ updZ Z.min]; rewrite ?Hhk, ?Htab, ?Hhigh, ?Hfirst, ?Hext; fold L'; rewrite HlL';
+          (splits; [reflexivity|replace (len L) with (len L - 0) at 1 by lia; apply window_snoc_in; lia|lia| |reflexivity]).
+        * subst L'. rewrite nthZ_snoc, Hz. reflexivity.
+        * subst L'. rewrite nthZ_app_l by lia. reflexivity.
+      + subst h2 h1. destruct (len L =? 0); reflexivity.
+      + (* the extension buffer *) unfold cext_ok. cbn. pose proof (b_cext _ _ _ B) as Hcx. destruct (cext s) as [x0|]; [|trivial].
+        destruct Hcx as [Hk0|(j & Hj & _)]; [left; exact Hk0|lia].
+      + intros j Hj. lia.
+      + intros j Hj. exact (HcurE j Hj).
+      + destruct (finish_shape (set_fh s h2) x ltac:(lia)) as (Fcur & Fndb & Fpos & Fpinx & Fpind & Fchg & Fcext & Ffh & Fmw & Fmr & Fdk & Flen & Fnx).
+        eexists. split; [reflexivity|]. splits; try assumption.
+        * rewrite Fndb. cbn. lia.
+        * unfold fsize. rewrite Ffh. subst h2 h1. destruct (len L =? 0); reflexivity.
+        * unfold ext_cursor. lia.
+    - destruct (Z.eqb_spec (len L mod 72) 0) as [Hmod|Hmod].
+      + (* a new extension block *)
+        assert (Hnx : nx = true) by (subst nx; unfold needs_x; destruct (Z.leb_spec 72 (len L)); [|lia]; destruct (Z.eqb_spec (len L mod 72) 0); [reflexivity|contradiction]).
+        rewrite Hnx in *. subst n E' L'. set (L' := L ++ [y]) in *. destruct (Hfx eq_refl) as ((Hx2 & Hxk & Hxin) & Hxy).
+        set (j := len L / 72 - 1).
+        assert (HlenE : len E = j) by (rewrite HlE; destruct (Z.ltb_spec (len L) 1); subst j; lia).
+        assert (HlenE' : len (E ++ [x]) = j + 1) by (rewrite len_app; unfold len at 2; simpl; lia).
+        assert (Hbase : 72 * (j + 1) = len L) by (subst j; lia).
+        assert (HEj : nthZ (E ++ [x]) j = x) by (rewrite nthZ_snoc, HlenE, Z.eqb_refl; reflexivity).
+        assert (HEold : forall i, 0 <= i < j -> nthZ (E ++ [x]) i = nthZ E i) by (intros i Hi; apply nthZ_app_l; lia).
+        assert (HEj1 : nthZ (E ++ [x]) (j + 1) = 0) by (apply nthZ_oob; lia).
+        (* the state the new extension block is put into *)
+        set (s1 := if len L =? 72 then set_fh (set_cext s (Some zero_x)) (set_h_ext (fh s) x) else s).
+        set (s2 := if 2 * 72 <=? ndb s1 then wr (set_cext s1 (Some (set_x_ext (cx s1) x))) (x_key (set_x_ext (cx s1) x)) (BExt (set_x_ext (cx s1) x)) else s1).
+        set (x0 := {| x_key := x; x_parent := h_key (fh s2); x_high := 0; x_tab := zerosZ 72; x_ext := 0 |}).
+        set (x1 := set_x_high (set_x_tab x0 (updZ (x_tab x0) 0 y)) (x_high x0 + 1)).
+        set (t := set_pinx (set_cext (set_pinx (set_cext s2 (Some x0)) 0) (Some x1)) (0 + 1)).
+        assert (Hnd1 : ndb s1 = len L) by (subst s1; destruct (len L =? 72); exact Hn0).
+        assert (Hx1 : x1 = enc_x L' (E ++ [x]) j).
+        { subst x1 x0. unfold enc_x, set_x_high, set_x_tab. cbn [x_key x_parent x_high x_tab x_ext]. rewrite HEj, HEj1. assert (Hk2 : h_key (fh s2) = key).
+          { subst s2 s1. destruct (len L =? 72); destruct (2 * 72 <=? _); cbn; exact Hhk. }
+          rewrite Hk2. f_equal.
+          - rewrite HlL', Hbase. lia.
+          - rewrite Hbase. subst L'. rewrite <- (window_zero L (len L) 72) by lia. replace 0 with (len L - len L) at 1 by lia. apply window_snoc_in; lia. }
+        (* the previous extension block, when there is one, now points to the new one - on the volume *)
+        assert (Hprev : 144 <= len L -> cext s = Some (enc_x L E (j - 1)) /\ set_x_ext (enc_x L E (j - 1)) x = enc_x L' (E ++ [x]) (j - 1)).
+        { intros H144. destruct Hshape as [Hz|(H1 & _ & _ & _ & _)]; [lia|].
+          destruct C as [(_ & _ & _ & Hn00 & _)|(_ & _ & _ & _ & _ & _ & _ & _ & Hxc)]; [lia|].
+          destruct (Hxc ltac:(lia)) as (Hcx & _). rewrite Hn0 in Hcx. replace ((len L - 1 - 72) / 72) with (j - 1) in Hcx by (subst j; lia).
+          split; [exact Hcx|]. unfold enc_x, set_x_ext. cbn [x_key x_parent x_high x_tab x_ext]. rewrite (HEold (j - 1)) by lia. replace (j - 1 + 1) with j by lia. rewrite HEj, HlL'.
+          subst L'. rewrite (window_snoc_out L (72 * j) 72 y) by lia. f_equal. lia. }
+        assert (Hs2 : cur s2 = cur s /\ ndb s2 = ndb s /\ cdata s2 = cdata s /\ pos s2 = pos s /\ mw s2 = mw s /\ mr s2 = mr s /\ chg s2 = chg s /\ h_size (fh s2) = h_size (fh s)).
+        { subst s2 s1. destruct (len L =? 72); destruct (2 * 72 <=? _); cbn; splits; reflexivity. }
+        destruct Hs2 as (S2cur & S2ndb & S2cd & S2pos & S2mw & S2mr & S2chg & S2sz).
+        destruct (append_data s t L E (E ++ [x]) y ct I R Hw Hp Hm Hfn HE'len Hnd' Hge') as (Bsc & Rsc & Lsc); try (subst t; cbn; assumption).
+        * (* header *) subst t. cbn. unfold hdr_ok. assert (Hfh2 : h_key (fh s2) = key /\ h_tab (fh s2) = h_tab (fh s) /\ h_high (fh s2) = h_high (fh s) /\ h_first (fh s2) = h_first (fh s)
+                                                       /\ h_ext (fh s2) = if len L =? 72 then x else h_ext (fh s)).
+          { subst s2 s1. destruct (len L =? 72); destruct (2 * 72 <=? _); cbn; splits; try reflexivity; exact Hhk. }
+          destruct Hfh2 as (K1 & K2 & K3 & K4 & K5). rewrite K1, K2, K3, K4, K5, Htab, Hhigh, Hfirst, Hext. fold L'. rewrite HlL'.
+          splits; try reflexivity.
+          -- subst L'. symmetry. apply window_snoc_out; lia.
+          -- lia.
+          -- subst L'. rewrite nthZ_app_l by lia. reflexivity.
+          -- destruct (Z.eqb_spec (len L) 72) as [He|He].
+             ++ symmetry. replace 0 with j by (subst j; lia). exact HEj.
+             ++ rewrite (HEold 0) by (subst j; lia). reflexivity.
+        * subst t. unfold cext_ok. cbn. right. exists j. split; [lia|exact Hx1].
+        * (* extension blocks on the volume *)
+          intros i Hi. rewrite HlenE' in Hi. destruct (Z.eq_dec i j) as [->|Hne]; [right; subst t; cbn; rewrite Hx1; reflexivity|].
+          left. subst t. cbn. destruct (Z.eq_dec i (j - 1)) as [->|Hne2].
+          -- (* the block that was current *)
+             assert (H144 : 144 <= len L) by (subst j; lia). destruct (Hprev H144) as (Hcx & Henc).
+             subst s2. rewrite Hnd1. destruct (Z.leb_spec (2 * 72) (len L)); [|lia].
+             assert (Hcx1 : cx s1 = enc_x L E (j - 1)) by (subst s1; destruct (Z.eqb_spec (len L) 72); [lia|]; unfold cx; rewrite Hcx; reflexivity).
+             rewrite Hcx1, Henc. cbn -[enc_x]. rewrite enc_key. rewrite Z.eqb_refl. reflexivity.
+          -- (* older extension blocks: untouched *)
+             assert (Hi2 : 0 <= i < j - 1) by lia.
+             rewrite (enc_snoc_other L E (E ++ [x]) y i) by (try rewrite !HEold by lia; try reflexivity; lia).
+             rewrite (HEold i) by lia.
+             assert (Hdk2 : dk s2 (nthZ E i) = dk s (nthZ E i)).
+             { subst s2. rewrite Hnd1. destruct (Z.leb_spec (2 * 72) (len L)).
+               - destruct (Hprev ltac:(lia)) as (Hcx & Henc).
+                 assert (Hcx1 : cx s1 = enc_x L E (j - 1)) by (subst s1; destruct (Z.eqb_spec (len L) 72); [lia|]; unfold cx; rewrite Hcx; reflexivity).
+                 rewrite Hcx1. cbn -[enc_x]. rewrite enc_key. destruct (Z.eqb_spec (nthZ E i) (nthZ E (j - 1))) as [He|He].
+                 + apply (inj_E s L E i (j - 1) B) in He; lia.
+                 + subst s1. destruct (len L =? 72); reflexivity.
+               - subst s1. destruct (len L =? 72); reflexivity. }
+             rewrite Hdk2. destruct (b_xdisk _ _ _ B i ltac:(lia)) as [Hd|(_ & Hd)]; [exact Hd|].
+             exfalso. destruct (Hprev ltac:(subst j; lia)) as (Hcx & _). rewrite Hcx in Hd.
+             assert (He : x_key (enc_x L E (j - 1)) = x_key (enc_x L E i)) by congruence. rewrite !enc_key in He. apply (inj_E s L E (j - 1) i B) in He; lia.
+        * (* data blocks are not touched by the extension block write *)
+          intros k Hk. subst t. cbn. subst s2. rewrite Hnd1. destruct (Z.leb_spec (2 * 72) (len L)); [|subst s1; destruct (len L =? 72); reflexivity].
+          destruct (Hprev ltac:(lia)) as (Hcx & Henc).
+          assert (Hcx1 : cx s1 = enc_x L E (j - 1)) by (subst s1; destruct (Z.eqb_spec (len L) 72); [lia|]; unfold cx; rewrite Hcx; reflexivity).
+          rewrite Hcx1. cbn -[enc_x]. rewrite enc_key. destruct (Z.eqb_spec (nthZ L k) (nthZ E (j - 1))) as [He|He].
+          -- exfalso. revert He. apply (sep_LE s L E k (j - 1) B); lia.
+          -- subst s1. destruct (len L =? 72); reflexivity.
+        * destruct (finish_shape t y ltac:(lia)) as (Fcur & Fndb & Fpos & Fpinx & Fpind & Fchg & Fcext & Ffh & Fmw & Fmr & Fdk & Flen & Fnx).
+          exists (finish_create bs ofs t y). split.
+          -- subst t x1 x0 s2. unfold add_to_ext, cx. cbn -[Z.leb Z.eqb Z.mul finish_create]. reflexivity.
+          -- splits; try assumption.
+             ++ rewrite Fndb. subst t. cbn. lia.
+             ++ rewrite Fpos. subst t. cbn. exact S2pos.
+             ++ unfold fsize. rewrite Ffh. subst t. cbn. exact S2sz.
+             ++ rewrite Fmw. subst t. cbn. exact S2mw.
+             ++ rewrite Fmr. subst t. cbn. exact S2mr.
+             ++ unfold ext_cursor. rewrite Fcext, Fpinx. subst t. cbn -[enc_x]. intros _. replace ((len L - 72) / 72) with j by (subst j; lia).
+                split; [rewrite Hx1; reflexivity|lia].
+      + (* a further slot of the current extension block *)
+        assert (Hnx : nx = false) by (subst nx; unfold needs_x; destruct (Z.eqb_spec (len L mod 72) 0); [contradiction|apply andb_false_r]).
+        rewrite Hnx in *. subst n E' L'. set (L' := L ++ [x]) in *. clear Hfx.
+        set (j := (len L - 72) / 72). set (i := (len L - 72) mod 72).
+        assert (Hj : 0 <= j < len E) by (rewrite HlE; destruct (Z.ltb_spec (len L) 1); subst j; lia).
+        destruct Hshape as [Hz|(H1 & _ & Hcu & Hcz & _)]; [lia|].
+        assert (Hxc : cext s = Some (enc_x L E j) /\ pinx s = i).
+        { destruct C as [(_ & _ & _ & Hn00 & _)|(_ & _ & _ & _ & _ & _ & _ & _ & Hxc)]; [lia|]. destruct (Hxc ltac:(lia)) as (Hcx & Hpx). rewrite Hn0 in *.
+          replace ((len L - 1 - 72) / 72) with j in Hcx by (subst j; lia). split; [exact Hcx|subst i; lia]. }
+        destruct Hxc as (Hcx & Hpx).
+        set (x1 := set_x_high (set_x_tab (cx s) (updZ (x_tab (cx s)) (pinx s) x)) (x_high (cx s) + 1)).
+        set (t := set_pinx (set_cext s (Some x1)) (pinx s + 1)).
+        assert (Hx1 : x1 = enc_x L' E j).
+        { subst x1. unfold cx. rewrite Hcx, Hpx. unfold enc_x, set_x_high, set_x_tab. cbn [x_key x_parent x_high x_tab x_ext]. rewrite HlL'. f_equal.
+          - subst i j. lia.
+          - replace i with (len L - 72 * (j + 1)) by (subst i j; lia). subst L'. apply window_snoc_in; subst j; lia. }
+        destruct (append_data s t L E E x ct I R Hw Hp Hm Hfn HE'len Hnd' Hge') as (Bsc & Rsc & Lsc); try (subst t; reflexivity).
+        * subst t. cbn. unfold hdr_ok. rewrite Hhk, Htab, Hhigh, Hfirst, Hext. fold L'. rewrite HlL'. splits; try reflexivity.
+          -- subst L'. symmetry. apply window_snoc_out; lia.
+          -- lia.
+          -- subst L'. rewrite nthZ_app_l by lia. reflexivity.
+        * subst t. unfold cext_ok. cbn. right. exists j. split; [exact Hj|exact Hx1].
+        * intros i0 Hi0. destruct (Z.eq_dec i0 j) as [->|Hne]; [right; subst t; cbn; rewrite Hx1; reflexivity|]. left. subst t. cbn.
+          assert (Hi2 : 0 <= i0 < j) by (rewrite HlE in Hi0; destruct (Z.ltb_spec (len L) 1); subst j; lia).
+          rewrite (enc_snoc_other L E E x i0) by (try reflexivity; subst j; lia).
+          destruct (b_xdisk _ _ _ B i0 Hi0) as [Hd|(_ & Hd)]; [exact Hd|]. exfalso. rewrite Hcx in Hd.
+          assert (He : x_key (enc_x L E j) = x_key (enc_x L E i0)) by congruence. rewrite !enc_key in He. apply (inj_E s L E j i0 B) in He; lia.
+        * intros i0 Hi0. exact (HcurE i0 Hi0).
+        * destruct (finish_shape t x ltac:(lia)) as (Fcur & Fndb & Fpos & Fpinx & Fpind & Fchg & Fcext & Ffh & Fmw & Fmr & Fdk & Flen & Fnx).
+          exists (finish_create bs ofs t x). split.
+          -- subst t x1. unfold add_to_ext. reflexivity.
+          -- splits; try assumption.
+             ++ rewrite Fndb. subst t. cbn. lia.
+             ++ unfold fsize. rewrite Ffh. subst t. reflexivity.
+             ++ unfold ext_cursor. rewrite Fcext, Fpinx. subst t. cbn -[enc_x]. intros _. fold j. fold i. split; [rewrite Hx1; reflexivity|lia].
   Qed.
 End Inv.
